@@ -263,7 +263,11 @@ def _work(chunk):
     kinds = {}
     n = 0
     for impl, via, cell in chunk:
-        k = run_cell(impl, via, cell, out)
+        try:
+            k = run_cell(impl, via, cell, out)
+        except report.Livelock as e:
+            out.append(report.livelock_violation(impl, e, {'impl': impl, 'via': via, 'cell': cell}))
+            k = 'livelock'
         kinds[k] = kinds.get(k, 0) + 1
         n += 1
     return [v.to_json() for v in out], kinds, n
